@@ -93,6 +93,18 @@ def make_cases(ctx, vocab):
                    ("10:30", "%H:%M"), ("March", "%B"), ("15", "%d")]:
         for R in RSETS[:4]:
             add(s, {"languages": ["en"], "date_formats": [fmt]}, set(), False, "fmt", R)
+    # the no-spaces parser (dates written as one run of digits): relational clauses + refinement against NoSpaces.tla
+    compact = ["20150305", "2015035", "150305", "05032015", "0305", "1030", "10:30", "201503051030", "20150305103015", "2015:03:05", "1", "12", "123",
+               "1234", "12345", "0000", "99999999", "00000000", "311299", "991231", "19991231", "31121999", "12311999", "20151305", "1503", "0229",
+               "20160229", "29022015", "0015", "00150305", "2015030510", "1015 2015", "3", "60", "2460", "10:61", "121212", "010203", "2015-03"]
+    compact += ["".join(rng.choice("0123456789") for _ in range(rng.randint(1, 14))) for _ in range(60 if ctx.quick() else 1500)]
+    compact += ["%04d%02d%02d" % (rng.randint(1, 9999), rng.randint(1, 12), rng.randint(1, 28)) for _ in range(30 if ctx.quick() else 400)]
+    for s in compact:
+        for R in ([rng.choice(RSETS), []] if ctx.quick() else RSETS):
+            st = {"PARSERS": ["no-spaces-time"]}
+            if rng.random() < 0.6:
+                st["DATE_ORDER"] = rng.choice(["DMY", "DYM", "MDY", "MYD", "YDM", "YMD"])
+            add(s, {"languages": ["en"]}, set(), False, "nsp", R, st=st)
     for s in ["1500000000", "1500000000123", "1500000000123456", "0999999999"]:
         for R in RSETS[:4]:
             add(s, {"languages": ["en"]}, set(), False, "ts", R, st={"TIMEZONE": "UTC"})
@@ -131,7 +143,7 @@ def run(ctx):
         if c["parser"] == "fmt" and r["clock0"][:3] != r["clock1"][:3]:
             rec["pdf"] = "skip"
         records.append(rec)
-        ar = absfam.abs_records(i, r)
+        ar = absfam.abs_records(i, r) + absfam.nsp_records(i, r)
         nabs += len(ar)
         records.extend(ar)
     tuples, _ = core.validate_traces(ctx, "T_C10", absfam.TRACE_CFG, records, tags=("REJECT", "SKIP"))
